@@ -376,7 +376,11 @@ class BinaryExpression(TypedExpression):
             return chained
 
         left_str = self.left.rebuild(indent=indent, inline=True)
-        right_str = self.right.rebuild(indent=indent, inline=True)
+
+        def inline_right() -> str:
+            """Render the right operand inline (only in the layouts that use it: rendering it
+            eagerly doubled the work at every level of a multi-line right-nested chain)."""
+            return self.right.rebuild(indent=indent, inline=True)
 
         operator_newline = self.operator_gap_lines > 0
         operator_str = self.operator.rebuild(indent=indent)
@@ -394,7 +398,7 @@ class BinaryExpression(TypedExpression):
                     inline,
                 )
             return self.add_trivia(
-                f"{left_str}{op_sep}{operator_str} {right_str}", indent, inline
+                f"{left_str}{op_sep}{operator_str} {inline_right()}", indent, inline
             )
 
         if self.right_gap_lines:
@@ -409,7 +413,9 @@ class BinaryExpression(TypedExpression):
         if not operator_str.startswith("\n"):
             # Ensure exactly one space before the operator (avoid double spaces)
             operator_str = " " + operator_str.lstrip()
-        return self.add_trivia(f"{left_str}{operator_str} {right_str}", indent, inline)
+        return self.add_trivia(
+            f"{left_str}{operator_str} {inline_right()}", indent, inline
+        )
 
 
 __all__ = ["BinaryExpression"]
